@@ -567,6 +567,19 @@ def session_degenerate(rng):
     return [b, i], cs, "degenerate"
 
 
+def session_many(rng, n):
+    """A large program: `n` Boolean variables and two integers, a handful of constraints (every variable is meant to be an
+    answer key: directive lines and replies must scale past any fixed chunk size)."""
+    from cspuz import Solver
+    s = Solver()
+    bs = [s.bool_var() for _ in range(n)]
+    x, y = s.int_var(-3, 3), s.int_var(0, 2)
+    s.ensure(bs[0] | ~bs[n // 2])
+    s.ensure(x + y == -1)
+    s.ensure(bs[-1].then(x < 0))
+    return list(s.variables), list(s.constraints), "many-variables"
+
+
 def gen_case(rng):
     r = rng.random()
     if r < 0.45:
@@ -748,9 +761,10 @@ def correspond(ctx):
         checks.append(fn)
 
     ncases = ctx.n(1500, 12000)
-    for _ in range(ncases):
+    many = [1001, 2300]
+    for ci in range(ncases):
         try:
-            vs, cs, kind = gen_case(rng)
+            vs, cs, kind = session_many(rng, many[ci]) if ci < len(many) else gen_case(rng)
         except Exception as e:
             ctx.count("gen-error:" + core.err_name(e))
             continue
@@ -762,7 +776,9 @@ def correspond(ctx):
         positional = all(v.id == k for k, v in enumerate(vs))
         # ---- 1. description text + Spec reading, every backend
         keys = rand_keys(rng, len(vs))
-        if rng.random() < 0.05 and keys:
+        if kind == "many-variables":
+            keys = [True] * len(vs)
+        elif rng.random() < 0.05 and keys:
             keys = keys[:-1]                       # too short: IndexError in solve_irrefutably
         total = {vname(v): rand_value(rng, v) for v in vs}
         sat_reply = java_sat(vs, total)
@@ -1067,16 +1083,19 @@ def search(ctx, why):
     def add(sig, what, data):
         if sig not in found:
             found[sig] = Finding(sig, what, data)
-    for _ in range(ctx.n(500, 3000)):
+    for it in range(ctx.n(500, 3000)):
         r = rng.random()
         try:
-            vs, cs, kind = session_dsl(rng) if r < 0.5 else session_native(rng) if r < 0.75 else session_custom(rng)
+            if it < 2:
+                vs, cs, kind = session_many(rng, [1001, 2300][it])
+            else:
+                vs, cs, kind = session_dsl(rng) if r < 0.5 else session_native(rng) if r < 0.75 else session_custom(rng)
         except Exception:
             continue
         if not _distinct_ids(vs):
             continue
         cs_txt = pexprs(cs)
-        keys = rand_keys(rng, len(vs))
+        keys = [True] * len(vs) if kind == "many-variables" else rand_keys(rng, len(vs))
         base = {"vars": _vars_data(vs), "constraints": cs_txt, "keys": keys}
         for name in NAMES:
             ctx.count("search:" + name)
